@@ -252,6 +252,9 @@ class Runner:
         # seed rotates the order only
         rot = self.seed % len(cases)
         order = cases[rot:] + cases[:rot]
+        if hasattr(chk, "cost"):
+            # long cases first (stable: the seed's rotation still decides the order among equals) - scheduling only
+            order = sorted(order, key=lambda c: -chk.cost(c))
         results = self._execute(order)
         return self.finish(order, results)
 
@@ -263,7 +266,7 @@ class Runner:
             _worker_init(REPO, numba_threads)
             return [run_one(*a) for a in args]
         ctx = mp.get_context("spawn")
-        chunk = max(1, min(8, len(cases) // (jobs * 4)))
+        chunk = 1 if len(cases) < 4000 else max(1, min(8, len(cases) // (jobs * 4)))
         with ctx.Pool(jobs, initializer=_worker_init, initargs=(REPO, numba_threads)) as pool:
             out = []
             for r in pool.imap_unordered(_run_one_star, args, chunksize=chunk):
